@@ -616,8 +616,24 @@ func (vc *FnVC) translate() (err error) {
 				}
 				return fmt.Errorf("%s: contract asserts at calls of %q but the function has no such call", vc.qualName(), ca.Callee)
 			}
+			// a clause that names the k-th call must bind to a k-th call: a clause left without its site would otherwise
+			// be dropped silently (a seeded change that removed the second of two calls went unnoticed this way)
+			if ca.Ordinal != 0 && !vc.matchedSites[fmt.Sprintf("assert %s#%d", ca.Callee, ca.Ordinal)] {
+				if vc.lenient {
+					vc.skipped = append(vc.skipped, fmt.Sprintf("asserts at call #%d of %q: no such call", ca.Ordinal, ca.Callee))
+					continue
+				}
+				return fmt.Errorf("%s: contract asserts at call #%d of %q but the function has no such call", vc.qualName(), ca.Ordinal, ca.Callee)
+			}
 		}
 		for _, g := range vc.ct.CallGhost {
+			if g.Ordinal != 0 && vc.matchedSites["ghost "+g.Callee] && !vc.matchedSites[fmt.Sprintf("ghost %s#%d", g.Callee, g.Ordinal)] {
+				if vc.lenient {
+					vc.skipped = append(vc.skipped, fmt.Sprintf("ghost code at call #%d of %q: no such call", g.Ordinal, g.Callee))
+					continue
+				}
+				return fmt.Errorf("%s: contract attaches ghost code to call #%d of %q but the function has no such call", vc.qualName(), g.Ordinal, g.Callee)
+			}
 			if !vc.matchedSites["ghost "+g.Callee] {
 				if vc.lenient {
 					vc.skipped = append(vc.skipped, fmt.Sprintf("ghost code at calls of %q: no such call", g.Callee))
@@ -1267,12 +1283,19 @@ func (vc *FnVC) debugTV(b debugBind, m *Mem) TV {
 				}
 			}
 		}
+		if fv, isFree := cell.(*ssa.FreeVar); isFree && immutableFreeVar(vc.fn, fv, 0) {
+			// a captured variable that is never reassigned is a constant in the code; it is the same constant in a clause
+			return TV{t: vc.fvConstTerm(fv), ty: fv.Type().Underlying().(*types.Pointer).Elem()}
+		}
 		if _, defined := vc.vals[cell]; defined || isConstOrParam(cell) {
 			lv := vc.lvOf(cell)
 			return TV{t: vc.loadLV(lv, m), ty: lv.typ}
 		}
 	}
 	if b.isAddr {
+		if fv, isFree := b.val.(*ssa.FreeVar); isFree && immutableFreeVar(vc.fn, fv, 0) {
+			return TV{t: vc.fvConstTerm(fv), ty: fv.Type().Underlying().(*types.Pointer).Elem()}
+		}
 		lv := vc.lvOf(b.val)
 		return TV{t: vc.loadLV(lv, m), ty: lv.typ}
 	}
